@@ -27,7 +27,7 @@ QUICK_UNITS = [
     "src/Variogram/Vario.cpp", "src/Variogram/AVario.cpp",
     "src/Neigh/ANeigh.cpp", "src/Neigh/NeighBench.cpp", "src/Neigh/NeighMoving.cpp", "src/Neigh/NeighCell.cpp", "src/Basic/Rotation.cpp", "src/Basic/Tensor.cpp", "src/LinearOp/IProjMatrix.cpp", "src/Basic/Grid.cpp",
     "src/Anamorphosis/AnamEmpirical.cpp", "src/Anamorphosis/AnamHermite.cpp", "src/Simulation/CalcSimuTurningBands.cpp", "src/Basic/Indirection.cpp", "src/Skin/Skin.cpp",
-    "src/Spatial/SpatialIndices.cpp", "src/Stats/PCA.cpp", "src/Drifts/DriftList.cpp", "src/Fractures/FracList.cpp",
+    "src/Spatial/SpatialIndices.cpp", "src/Stats/PCA.cpp", "src/Drifts/DriftList.cpp", "src/Fractures/FracList.cpp", "src/Polynomials/Chebychev.cpp",
 ]
 
 
@@ -1335,6 +1335,102 @@ def r10_10(prog, chk):
     chk.floor("R10.10", n, 2)
 
 
+def r10_11(prog, chk):
+    """R10.11 - a member vector whose length is decided by the data is read up to ITS length.  When a method resizes a member vector
+    with a local (data-dependent) count, or replaces it by an argument, a loop of another method that subscripts it with a counter
+    bounded by a different plain member reads whatever follows the vector in memory unless every such resizing method also stores
+    the count into that member: the value returned then depends on the history of the process (Chebychev::eval read `_ncMax`
+    coefficients of a polynomial truncated by fit() / stored by setCoeffs())."""
+    def strip(e):
+        while e is not None and e["k"] == "Cast" and e.get("c"):
+            e = e["c"][0]
+        return e
+
+    def member(e):
+        e = strip(e)
+        if e is not None and e["k"] == "MemberExpr" and e.get("mk") == "field" and (not e.get("c") or e["c"][0] is None or e["c"][0]["k"] == "This"):
+            return e["n"]
+        return None
+    n = 0
+    for K in sorted(prog.classes):
+        meths = [f for f in prog.funcs if f.cls == K and f.body is not None]
+        if not meths:
+            continue
+        dyn = {}          # member vector -> [(method, what decides its length)]
+        for f in meths:
+            if f.kind in ("ctor", "dtor"):
+                continue
+            pars = {p_["d"] for p_ in f.params}
+            for x in f.walk():
+                if x["k"] == "MCall" and (x.get("callee") or "").split("::")[-1] == "resize":
+                    m = member(call_obj(x))
+                    a = call_args(x)
+                    e = strip(a[0]) if a and a[0] is not None else None
+                    if m and e is not None and e["k"] == "DeclRefExpr" and e.get("dk") == "var" and e.get("d") not in pars:
+                        dyn.setdefault(m, []).append((f, e["d"], show(e), x))
+        if not dyn:
+            continue
+
+        def co_updated(bm, m):
+            """every method deciding the length of m also stores that count into bm"""
+            for f, d, _txt, _x in dyn[m]:
+                ok = False
+                for y in f.walk():
+                    if y["k"] == "Assign" and y.get("op") == "=" and member(y["c"][0]) == bm:
+                        r = strip(y["c"][1])
+                        if d is not None and r is not None and r["k"] == "DeclRefExpr" and r.get("d") == d:
+                            ok = True
+                        if r is not None and r["k"] == "MCall" and (r.get("callee") or "").split("::")[-1] == "size" and member(call_obj(r)) == m:
+                            ok = True
+                if not ok:
+                    return False
+            return True
+
+        def helper_before(f, m):
+            sites = [(g, y) for g in prog.funcs if g.body is not None for y in g.walk()
+                     if y["k"] in ("Call", "MCall") and (y.get("callee") or "") == f.name]
+            if not sites:
+                return False
+            for g, y in sites:
+                cuts = [x_ for g_, _d, _t, x_ in dyn[m] if g_ is g]
+                if not cuts or any(g.loc(y).split(":")[-1].isdigit() and int(g.loc(y).split(":")[-1]) >= int(g.loc(x_).split(":")[-1]) for x_ in cuts):
+                    return False
+            return True
+        for f in meths:
+            for L in f.walk():
+                if L["k"] != "For" or len(L["c"]) < 4 or L["c"][1] is None or L["c"][3] is None:
+                    continue
+                c = L["c"][1]
+                if c["k"] != "BinOp" or c.get("op") not in ("<", "<=") or c["c"][0] is None or strip(c["c"][0])["k"] != "DeclRefExpr":
+                    continue
+                lv = strip(c["c"][0])["d"]
+                bm = member(c["c"][1])
+                done = set()
+                for x in walk(L["c"][3]):
+                    if not (x["k"] == "Index" or (x["k"] == "OpCall" and x.get("op") == "[]")):
+                        continue
+                    base = x["c"][0] if x["k"] == "Index" else x["c"][-2]
+                    m = member(base)
+                    i = strip(x["c"][-1])
+                    if m not in dyn or i is None or i["k"] != "DeclRefExpr" or i.get("d") != lv or m in done:
+                        continue
+                    done.add(m)
+                    if all(g is f for g, _d, _t, _x in dyn[m]):
+                        continue        # the loop lives in the method that decides the length
+                    if helper_before(f, m):
+                        continue        # private helper used only by that method, before it cuts the vector
+                    n += 1
+                    bad = bm is not None and bm != m and not co_updated(bm, m)
+                    if bad:
+                        chk.analysed(f)
+                    g0, _d0, t0, _x0 = dyn[m][0]
+                    chk.ob("R10.11", "%s: `%s[%s]` is read within the length the data gave it" % (f.name, m, show(i)), f.loc(x), not bad,
+                           detail=None if not bad else "the loop runs to `%s` but %s sets the length of `%s` from `%s` without storing it into `%s`: the "
+                           "reads past the end return what happens to follow the vector in memory" % (bm, g0.name, m, t0, bm),
+                           key="R10.11|%s|%s" % (f.name, m), nontrivial=bad)
+    chk.floor("R10.11", n, 4)
+
+
 def r10_9(prog, chk):
     """R10.9 - polarity of the neighbourhood memo.  ANeigh::select() reuses the memorised neighbourhood of the previous
     target exactly when hasChanged() answers false.  An override that answers with a SAMENESS predicate (a function that
@@ -1470,6 +1566,7 @@ def main(tier):
     r10_4b(prog, chk)
     r10_8(prog, chk)
     r10_10(prog, chk)
+    r10_11(prog, chk)
     r10_9(prog, chk)
     r10_7(prog, chk, tier, units)
     return chk.finish()
